@@ -7,7 +7,7 @@ import os
 import shutil
 import urllib.parse
 
-from . import alpha, gamma
+from . import alpha, gamma, fsmon
 from .alpha import DAV, CALDAV, CARDDAV, CS, APPLE, INF, Interner
 from .world import World, git, make_bare_collection
 
@@ -148,7 +148,18 @@ class DavSession:
         return ev
 
     # -- operations -----------------------------------------------------------
-    def put(self, c, n, data, ct=None, im=None, inm=None, valid=None, re=False):
+    def _request(self, method, path, hdrs, body, fault=0):
+        """One request, optionally with an injected ENOSPC at the fault-th file-system
+        mutation below the data directory."""
+        if fault:
+            with fsmon.FaultInjector(self.world.root, fault) as fi:
+                resp = self.world.request(method, path, hdrs, body)
+            self._fault_fired = fi.fired is not None
+            return resp
+        self._fault_fired = False
+        return self.world.request(method, path, hdrs, body)
+
+    def put(self, c, n, data, ct=None, im=None, inm=None, valid=None, re=False, fault=0):
         ct = ct or gamma.content_type_for(n)
         kind = gamma.kind_for_ct(ct)
         b = self.body_id(data, kind, valid)
@@ -161,8 +172,9 @@ class DavSession:
         if inmh is not None:
             hdrs.append(("If-None-Match", inmh))
         path = SLOTS[c] + "/" + n
-        resp = self.world.request("PUT", path, hdrs, data)
-        ev = {"op": "Put", "c": c, "n": n, "b": b, "im": imr, "inm": inmr, "re": bool(re)}
+        resp = self._request("PUT", path, hdrs, data, fault)
+        ev = {"op": "Put", "c": c, "n": n, "b": b, "im": imr, "inm": inmr, "re": bool(re),
+              "fault": fault if self._fault_fired else 0}
         return self._record(ev, resp, {"m": "PUT", "path": path, "headers": hdrs,
                                        "body": data.decode("utf-8", "replace")})
 
@@ -181,15 +193,15 @@ class DavSession:
         return self._record(ev, resp, {"m": "POST", "path": path, "ct": ct,
                                        "body": data.decode("utf-8", "replace")})
 
-    def delete(self, c, n, im=None):
+    def delete(self, c, n, im=None, fault=0):
         self.names[c].add(n)
         hdrs = []
         imh, imr = self.cond(im, c, n)
         if imh is not None:
             hdrs.append(("If-Match", imh))
         path = SLOTS[c] + "/" + n
-        resp = self.world.request("DELETE", path, hdrs)
-        ev = {"op": "Delete", "c": c, "n": n, "im": imr}
+        resp = self._request("DELETE", path, hdrs, None, fault)
+        ev = {"op": "Delete", "c": c, "n": n, "im": imr, "fault": fault if self._fault_fired else 0}
         return self._record(ev, resp, {"m": "DELETE", "path": path, "headers": hdrs})
 
     def mk(self, c, kind, how="auto", props=()):
@@ -300,8 +312,9 @@ class DavSession:
                 h = urllib.parse.quote(w.url(base)) + "".join("%%%02X" % ch for ch in n.encode("utf-8"))
             elif cls == "abs":
                 h = "http://localhost" + urllib.parse.quote(plain)
-            elif cls == "othercoll":
-                oc = [s for s in SLOTS if s != c][0]
+            elif cls.startswith("othercoll"):
+                oc = cls.split(":", 1)[1] if ":" in cls else [s for s in SLOTS if s != c][0]
+                cls = "othercoll"
                 h = urllib.parse.quote(w.url(SLOTS[oc] + "/" + n))
             elif cls == "outside":
                 h = "/outside-the-namespace/" + urllib.parse.quote(n)
@@ -312,7 +325,7 @@ class DavSession:
             else:
                 raise ValueError(cls)
             hrefs.append(h)
-            desc.append({"cls": cls, "n": n, "h": len(hrefs)})
+            desc.append({"cls": cls, "n": n, "h": len(hrefs), "oc": oc if cls == "othercoll" else c})
         body = gamma.multiget_body("calendar" if kind != "addressbook" else "addressbook", hrefs)
         resp = w.request("REPORT", base, [("Content-Type", "text/xml"), ("Depth", "1")], body)
 
